@@ -69,7 +69,9 @@ JPrims(e) ==
             cls == e.fn IN
         << R("C12", "date_accepts_in_domain", inDom, e.r.ok, cls),
            R("C12", "date_exact", inDom /\ e.r.ok, e.r.out = PadTo(ms, 8), cls),
-           R("C12", "date_rejects_negative", ~nonneg /\ e.fn # "DateFromTime", ~e.r.ok, cls) >>
+           R("C12", "date_rejects_negative", ~nonneg /\ e.fn # "DateFromTime", ~e.r.ok, cls),
+           \* values that do not fit a non-negative 63-bit millisecond count are refused, never wrapped
+           R("C12", "date_rejects_out_of_domain", nonneg /\ ~FitsInt64(ms) /\ e.fn # "DateFromTime", ~e.r.ok, cls) >>
     [] e.op = "DateGet" ->
         LET small == FitsInt64(e["in"])
             t == DateToTime(e["in"]) IN
